@@ -109,10 +109,6 @@ Definition oracle_v6nh (b : bytes) (out : list N) : list N :=
   end.
 
 (* ---- C19: MP splitters ---- *)
-Definition spec_flag_err (code flags : N) (b : bytes) (want : bool * bool) : option err :=
-  if flags_match flags want then None
-  else Some (ETaw code (Some (mkNotif 3 4 (spec_attr_tlv code b)))).
-
 Definition err_eqb (a b : option err) : bool := beqb (tok_oerr a) (tok_oerr b).
 
 Definition oracle_mp_reach (flags : N) (b : bytes) (cb : option err) (out : list N) : list N :=
